@@ -14,6 +14,7 @@ SPEC = os.path.join(ROOT, "spec")
 WORK = os.path.join(ROOT, "work")
 HARNESS = os.path.join(ROOT, "harness")
 BIN = os.path.join(HARNESS, "target", "release", "snowverif")
+BIN_HFS = os.path.join(HARNESS, "target-hfs", "release", "snowverif")   # harness built against the hfs build of the crate
 REPLAYS = os.path.join(ROOT, "replays")
 EVIDENCE = os.path.join(ROOT, "evidence")
 VECTORS = "/repo/tests/vectors/cacophony.txt"
@@ -142,9 +143,31 @@ def build_harness():
     log(f"harness built in {time.time() - t0:.1f}s")
 
 
-def harness(args, timeout=3600):
+_hfs_built = False
+
+
+def build_harness_hfs():
+    """(Re)build the second harness: /repo with features hfs + use-pqcrypto-kyber1024 (own target directory)."""
+    global _hfs_built
+    if _hfs_built:
+        return
+    t0 = time.time()
+    env = dict(os.environ)
+    env["CARGO_NET_OFFLINE"] = "true"
+    p = subprocess.run(["cargo", "build", "--release", "--offline", "--features", "hfs", "--target-dir", "target-hfs"],
+                       cwd=HARNESS, env=env, stdout=subprocess.PIPE, stderr=subprocess.STDOUT, text=True)
+    if p.returncode != 0:
+        raise ToolError("hfs harness build failed (does /repo still compile with features hfs,use-pqcrypto-kyber1024?):\n"
+                        + p.stdout[-3000:])
+    _hfs_built = True
+    log(f"hfs harness built in {time.time() - t0:.1f}s")
+
+
+def harness(args, timeout=3600, hfs=False):
     """Run the harness; returns (rc, stdout). rc 0 ok, 1 violations, 2 tool error."""
-    p = subprocess.run(["timeout", str(timeout), BIN] + args, cwd=ROOT, stdout=subprocess.PIPE,
+    if hfs:
+        build_harness_hfs()
+    p = subprocess.run(["timeout", str(timeout), BIN_HFS if hfs else BIN] + args, cwd=ROOT, stdout=subprocess.PIPE,
                        stderr=subprocess.PIPE, text=True)
     if p.returncode not in (0, 1):
         raise ToolError(f"harness {' '.join(args[:3])} failed rc={p.returncode}: {p.stderr[-2000:]} {p.stdout[-500:]}")
@@ -158,11 +181,27 @@ def name_table():
     if os.path.exists(path) and count_lines(path, "NAME") == 13344:
         return path
     os.makedirs(os.path.dirname(path), exist_ok=True)
-    r = run_tlc("MC_NameTable", {"PatSetN": ALL_PATTERNS}, invariants=["TableOk"], name="nametable", workers=1,
+    r = run_tlc("MC_NameTable", {"PatSetN": ALL_PATTERNS, "HfsN": False}, invariants=["TableOk"], name="nametable", workers=1,
                 timeout=600)
     n = count_lines(r["out"], "NAME")
     if n != 13344:
         raise ToolError(f"name table has {n} rows, expected 13344")
+    os.replace(r["out"], path)
+    return path
+
+
+def name_table_hfs():
+    """The names of the hfs build (interactive patterns, hfs before/after the psk modifiers, Kyber1024)."""
+    dg = spec_digest()
+    path = os.path.join(WORK, "cache", f"names-hfs-{dg}.out")
+    if os.path.exists(path) and count_lines(path, "NAME") > 0:
+        return path
+    os.makedirs(os.path.dirname(path), exist_ok=True)
+    r = run_tlc("MC_NameTable", {"PatSetN": ALL_PATTERNS, "HfsN": True}, invariants=["TableOk"], name="nametable-hfs",
+                workers=1, timeout=900)
+    n = count_lines(r["out"], "NAME")
+    if n == 0:
+        raise ToolError("hfs name table is empty")
     os.replace(r["out"], path)
     return path
 
